@@ -1,6 +1,6 @@
 from .common import *
 CS = "tinyflux.storages.CSVStorage."
-CSV_FUNCS = [CS + f for f in ("can_read", "can_write", "can_append", "append", "_write", "reset", "__len__", "_init_temp_storage", "_cleanup_temp_storage", "_swap_temp_with_primary", "close")]
+CSV_FUNCS = [CS + f for f in ("can_read", "can_write", "can_append", "append", "_write", "reset", "__len__", "__iter__", "_init_temp_storage", "_cleanup_temp_storage", "_swap_temp_with_primary", "close")]
 IO_TRUSTED = [
     "pyvc (symbolic executor + encoding of Python semantics) and z3/cvc5",
     "I/O effect model of contracts/io_model.py (DESIGN 4.4), ASSUMED: text-mode seek/flush/close move buffered rows to disk in one step; csv.writer rows reach the Python buffer only (A-buf); truncate cuts at the position; "
